@@ -1,5 +1,12 @@
 //! E5: bounded-exhaustive input enumeration of pure components (C25–C35).
+pub mod amounts;
+pub mod big;
 pub mod envelope;
+pub mod notation;
+pub mod parsers;
+pub mod runename;
+pub mod satnum;
+pub mod unlock;
 pub mod properties;
 pub mod runestone;
 pub mod storage;
